@@ -21,6 +21,8 @@ use crate::util::N;
 pub enum Src {
     /// authoritative local zone `auth.test.`
     Auth,
+    /// the same zone, but the link is a wildcard CNAME matched two labels deep
+    AuthWild,
     /// non-authoritative local root zone (names under `local.`)
     NonAuth,
     /// pre-seeded cache (names under `cached.`)
@@ -56,7 +58,7 @@ pub struct Case {
 
 fn space(s: Src) -> &'static str {
     match s {
-        Src::Auth => "auth.test.",
+        Src::Auth | Src::AuthWild => "auth.test.",
         Src::NonAuth => "local.",
         Src::Cache => "cached.",
         Src::Upstream => "up.",
@@ -67,6 +69,10 @@ fn space(s: Src) -> &'static str {
 impl Case {
     pub fn node(&self, i: usize) -> N {
         let s = if i < self.links.len() { self.links[i] } else { self.terminal_src };
+        if s == Src::AuthWild && i < self.links.len() {
+            // matched by `*.w<i>.auth.test.`, two labels in place of the `*`
+            return N::parse(&format!("deep.er.w{i}.auth.test."));
+        }
         N::parse(&format!("c{i}.{}", space(s)))
     }
     pub fn target_of_link(&self, i: usize) -> N {
@@ -107,7 +113,7 @@ impl Case {
     }
     fn obtainable(&self, s: Src) -> bool {
         match s {
-            Src::Auth | Src::NonAuth | Src::Cache => true,
+            Src::Auth | Src::AuthWild | Src::NonAuth | Src::Cache => true,
             Src::Upstream => self.mode == 1,
             Src::Forwarder => self.mode == 2,
         }
@@ -122,7 +128,8 @@ fn gen_src(g: &mut Gen, mode: u8) -> Src {
         2 => Src::Forwarder,
         _ => Src::Cache,
     };
-    match g.weighted(&[3, 2, 3, 4]) {
+    match g.weighted(&[3, 2, 3, 4, 1]) {
+        4 => Src::AuthWild,
         0 => Src::Auth,
         1 => Src::NonAuth,
         2 => Src::Cache,
@@ -189,6 +196,8 @@ impl Prop for Chains {
             2 => Terminal::Missing,
             _ => Terminal::Unreachable,
         };
+        // the end of the chain is an ordinary name
+        let terminal_src = if terminal_src == Src::AuthWild { Src::Auth } else { terminal_src };
         let back_edge = if !links.is_empty() && g.chance(1, 6) { Some(g.below(links.len()) as u8) } else { None };
         Case { links, terminal_src, terminal, back_edge, qtype: g.pick(&[T_A, T_AAAA, T_TXT, T_MX]), mode, upstream_chases: g.bool() }
     }
@@ -221,6 +230,11 @@ impl Prop for Chains {
             let z = ZRec { owner: rr.name.clone(), wild: false, rtype: rr.rtype, data: rr.data.clone(), ttl: rr.ttl };
             match src {
                 Src::Auth => auth.recs.push(z),
+                Src::AuthWild => {
+                    // owner of the stored record: the wildcard's parent (drop "deep.er")
+                    let parent = N(rr.name.0[2..].to_vec());
+                    auth.recs.push(ZRec { owner: parent, wild: true, ..z })
+                }
                 Src::NonAuth => local.recs.push(z),
                 Src::Cache => cache.insert(&rr_to_impl(rr).unwrap()),
                 Src::Upstream | Src::Forwarder => up.recs.push(z),
